@@ -263,66 +263,185 @@ def make_idcases(ck, gen, mir, n):
     return cases
 
 
-def idcases(ck, mir, cases, res):
-    defs, rows, meta = [], [], []
+IAF = [["C", {"s": "1 nF"}], ["thresh", {"s": "-50mV"}], ["reset", {"s": "-65mV"}], ["leak_conductance", {"s": "10 nS"}],
+       ["leak_reversal", {"s": "-65mV"}]]
+STORED_HIST = [
+    # look up, edit, look up again (remove / rename / replace with the same id / add a previously missing id)
+    {"tree": {"cls": "NeuroMLDocument", "kw": [["id", {"s": "doc"}], ["iaf_cells", {"l": [
+        {"cls": "IafCell", "kw": [["id", {"s": "iaf0"}]] + IAF}, {"cls": "IafCell", "kw": [["id", {"s": "iaf1"}]] + IAF}]}],
+        ["pulse_generators", {"l": [{"cls": "PulseGenerator", "kw": [["id", {"s": "pg0"}], ["delay", {"s": "0ms"}],
+                                                                      ["duration", {"s": "10ms"}], ["amplitude", {"s": "1nA"}]]}]}]]},
+     "steps": [{"op": "lookup", "id": "iaf0"}, {"op": "lookup", "id": "iaf1"}, {"op": "lookup", "id": "pg0"}, {"op": "lookup", "id": "later"},
+               {"op": "remove", "member": "iaf_cells", "index": 1}, {"op": "lookup", "id": "iaf1"},
+               {"op": "rename", "member": "pulse_generators", "index": 0, "id": "pulse_renamed"}, {"op": "lookup", "id": "pg0"},
+               {"op": "lookup", "id": "pulse_renamed"},
+               {"op": "replace", "member": "iaf_cells", "index": 0, "tree": {"cls": "IafCell", "kw": [["id", {"s": "iaf0"}], ["notes", {"s": "new"}]] + IAF}},
+               {"op": "lookup", "id": "iaf0"},
+               {"op": "append", "member": "iaf_cells", "tree": {"cls": "IafCell", "kw": [["id", {"s": "later"}]] + IAF}}, {"op": "lookup", "id": "later"}]},
+    {"tree": {"cls": "Network", "kw": [["id", {"s": "net"}], ["populations", {"l": [
+        {"cls": "Population", "kw": [["id", {"s": "p0"}], ["component", {"s": "c"}], ["size", {"i": 1}]]},
+        {"cls": "Population", "kw": [["id", {"s": "p1"}], ["component", {"s": "c"}], ["size", {"i": 2}]]}]}]]},
+     "steps": [{"op": "lookup", "id": "p1"}, {"op": "lookup", "id": "p2"}, {"op": "remove", "member": "populations", "index": 1},
+               {"op": "lookup", "id": "p1"}, {"op": "rename", "member": "populations", "index": 0, "id": "q0"}, {"op": "lookup", "id": "p0"},
+               {"op": "lookup", "id": "q0"},
+               {"op": "append", "member": "populations", "tree": {"cls": "Population", "kw": [["id", {"s": "p2"}], ["component", {"s": "c"}]]}},
+               {"op": "lookup", "id": "p2"}]},
+]
+
+
+def make_histories(ck, gen, mir, n):
+    """histories on one document / network: look ups interleaved with edits of components that were looked up before"""
+    rng = ck.rng
+    cases = [json.loads(json.dumps(c)) for c in STORED_HIST]
+    fresh = 0
+    for j in range(n):
+        cls = "NeuroMLDocument" if j % 2 == 0 else "Network"
+        tree = gen.tree(cls, 1, full=(j < 2))
+        own = [m for m in mir.C[cls]["mspecs"] if m["container"] and isinstance(m["type"], str) and m["type"] in mir.C
+               and "id" in mir.ctor_keywords(m["type"])]
+        kw = dict((n_, v) for n_, v in tree["kw"])
+        state = {}
+        for m in own:
+            v = kw.get(m["name"])
+            ids = []
+            for e in (v["l"] if v and "l" in v else []):
+                iv = dict((a, b_) for a, b_ in e["kw"]).get("id")
+                ids.append(iv["s"] if iv and "s" in iv else None)
+            state[m["name"]] = ids
+        types = {m["name"]: m["type"] for m in own}
+        steps, asked, gone = [], [], []
+        for _ in range(rng.choice([6, 9, 12])):
+            present = [(m, k, i) for m, ids in state.items() for k, i in enumerate(ids) if i is not None]
+            known = [t for t in present if t[2] in asked]
+            r = rng.random()
+            if known and r < 0.45:
+                m, k, i = rng.choice(known)
+                what = rng.choice(["remove", "rename", "replace"])
+                if what == "remove":
+                    steps.append({"op": "remove", "member": m, "index": k})
+                    del state[m][k]
+                elif what == "rename":
+                    fresh += 1
+                    new = "renamed_%d" % fresh
+                    steps.append({"op": "rename", "member": m, "index": k, "id": new})
+                    state[m][k] = new
+                    steps.append({"op": "lookup", "id": new})
+                    asked.append(new)
+                else:
+                    steps.append({"op": "replace", "member": m, "index": k, "tree": {"cls": types[m], "kw": [["id", {"s": i}]]}})
+                steps.append({"op": "lookup", "id": i})
+                gone.append(i)
+            elif own and r < 0.6:
+                m = rng.choice(own)["name"]
+                missing = [i for i in asked if i and not any(i in ids for ids in state.values())]
+                fresh += 1
+                i = rng.choice(missing) if missing and rng.random() < 0.7 else "added_%d" % fresh
+                steps.append({"op": "append", "member": m, "tree": {"cls": types[m], "kw": [["id", {"s": i}]]}})
+                state[m].append(i)
+                steps.append({"op": "lookup", "id": i})
+                asked.append(i)
+            else:
+                if present and r < 0.85:
+                    i = rng.choice(present)[2]
+                elif gone and r < 0.92:
+                    i = rng.choice(gone)
+                else:
+                    i = rng.choice(["nope", "x", "", "later_%d" % rng.randrange(3)])
+                steps.append({"op": "lookup", "id": i})
+                asked.append(i)
+        cases.append({"tree": tree, "steps": steps})
+    return cases
+
+
+def own_components(mir, cls, dumped):
+    fields = dict((n, v) for n, v in dumped["fields"])
+    comps = [x for n in [m["name"] for m in mir.C[cls]["mspecs"]]
+             for x in ((fields.get(n) or {}).get("l", []) if isinstance(fields.get(n), dict) else [])]
+    typed = all(fields.get(m["name"]) is None or isinstance(fields.get(m["name"]), dict)
+                and ("l" in fields[m["name"]] or "s" in fields[m["name"]] or "raw" in fields[m["name"]]) for m in mir.C[cls]["mspecs"])
+    return comps, typed
+
+
+def idcases(ck, mir, cases, res, label="Cases_C11_id"):
+    """every look up of every history: the specification on the document as it is at that moment, and the model
+    (a pure function of that document and the counter) diffed inside Coq"""
+    defs, rows, meta = {}, [], []
     for k, (case, r) in enumerate(zip(cases, res)):
         if "harness_error" in r:
             ck.disagree("harness", case["tree"]["cls"], "get_by_id case could not be run", r["harness_error"])
             continue
         cls = case["tree"]["cls"]
         is_doc = cls == "NeuroMLDocument"
-        own_lists = list_members(mir, cls)
-        fields = dict((n, v) for n, v in r["obj"]["fields"])
-        comps = [x for n in [m["name"] for m in mir.C[cls]["mspecs"]] for x in ((fields.get(n) or {}).get("l", []) if isinstance(fields.get(n), dict) else [])]
-        typed = all(fields.get(m["name"]) is None or isinstance(fields.get(m["name"]), dict) and ("l" in fields[m["name"]] or "s" in fields[m["name"]] or "raw" in fields[m["name"]])
-                    for m in mir.C[cls]["mspecs"])
-        try:
-            doc_coq = gdsgen.cobj(r["obj"])
-            coq_ok = '"f": "!' not in json.dumps(r["obj"])
-        except ValueError:
-            coq_ok = False
-        if coq_ok:
-            defs.append((k, "Definition doc_%d : obj XF := %s." % (k, doc_coq)))
-        for i, lk in zip(case["ids"], r["lookups"]):
+        steps = case.get("steps") or [{"op": "lookup", "id": i} for i in case["ids"]]
+        state_info = {}
+        for n_step, (step, lk) in enumerate(zip(steps, r["lookups"])):
+            if step["op"] != "lookup":
+                ck.tally("edit:" + step["op"])
+                continue
+            i = step["id"]
+            st = lk["state"]
+            if st not in state_info:
+                comps, typed = own_components(mir, cls, r["states"][st])
+                try:
+                    coq = gdsgen.cobj(r["states"][st]) if '"f": "!' not in json.dumps(r["states"][st]) else None
+                except ValueError:
+                    coq = None
+                state_info[st] = (comps, typed, coq)
+            comps, typed, coq = state_info[st]
             matches = [x for x in comps if dict((n, v) for n, v in x["fields"]).get("id") == {"s": i}]
-            inp = {"document": case["tree"], "set": case.get("set"), "id": i, "warn_count": lk["wc"]}
-            ck.count(1, nontrivial_key=json.dumps([cls, len(comps) > 1, bool(matches), i == "", lk["wc"] >= 10]),
-                     sample={"class": cls, "id": i, "components": len(comps), "result": lk["res"], "found_id": lk.get("found_id")}
-                     if len(ck.samples) < 6 and matches else None)
-            ck.tally("lookup:%s:%s" % ("doc" if is_doc else "network", "hit" if matches else "miss"))
+            edited = st > 0
+            inp = {"document": case["tree"], "set": case.get("set"), "steps": steps[:n_step + 1], "id": i, "warn_count": lk["wc"]}
+            ck.count(1, nontrivial_key=json.dumps([cls, len(comps) > 1, bool(matches), i == "", lk["wc"] >= 10, edited,
+                                                   steps[n_step - 1]["op"] if n_step else "start"]),
+                     sample={"class": cls, "id": i, "components": len(comps), "after_edits": st, "result": lk["res"], "found_id": lk.get("found_id")}
+                     if len(ck.samples) < 6 and matches and edited else None)
+            ck.tally("lookup:%s:%s:%s" % ("doc" if is_doc else "network", "hit" if matches else "miss", "after-edit" if edited else "fresh"))
+            if lk.get("new_keys"):
+                ck.witness("C11:get_by_id-leaves-state-on-the-document", "get_by_id created the attribute(s) %s on the %s" % (lk["new_keys"], cls),
+                           input=inp, expected=[], observed=lk["new_keys"])
+            if not lk.get("doc_unchanged", True):
+                ck.witness("C11:get_by_id-edits-the-document", "the document differs after the look up", input=inp)
             if typed:
                 if is_doc and i == "":
                     if lk["res"] != 0:
                         ck.witness("C11:get_by_id-empty-id", "get_by_id('') on a document is documented to return None", input=inp, observed=lk)
                 elif matches:
-                    if lk["res"] != 1 or lk.get("found_id") != i or not lk.get("where"):
+                    if lk["res"] != 1:
                         ck.witness("C11:get_by_id-existing-id-not-found", "a component with id %r is in a member list but get_by_id gives %s"
                                    % (i, lk.get("exc") or lk["res"]), input=inp, expected={"id": i}, observed=lk)
+                    elif lk.get("found_id") != i or not lk.get("where") or not lk.get("is_expected"):
+                        ck.witness("C11:get_by_id-stale-or-wrong-component", "get_by_id(%r) returns a component that %s" % (
+                            i, "carries the id %r" % lk.get("found_id") if lk.get("found_id") != i else
+                            "is not in the document any more" if not lk.get("where") else "is not the one the document holds under that id"),
+                            input=inp, expected={"id": i, "in_document": True}, observed={k_: lk.get(k_) for k_ in ("found_id", "where", "is_expected")})
                 else:
                     if lk["res"] == 2:
                         ck.witness("C11:get_by_id-raises-on-unsortable-ids", "no component has id %r: get_by_id raises %s instead of returning None"
                                    % (i, lk.get("exc")), input=inp, expected=None, observed=lk.get("exc"))
                     elif lk["res"] != 0:
-                        ck.witness("C11:get_by_id-wrong-component", "no direct member has id %r but a component is returned" % i, input=inp, observed=lk)
+                        ck.witness("C11:get_by_id-stale-or-wrong-component", "no component of the document has id %r now, but get_by_id returns one "
+                                   "(id %r, %s)" % (i, lk.get("found_id"), "still in the document" if lk.get("where") else "no longer in the document"),
+                                   input=inp, expected=None, observed={k_: lk.get(k_) for k_ in ("found_id", "where")})
                 if lk["wc_after"] > 10:
                     ck.witness("C11:get_by_id-warn-counter", "warn_count exceeds 10", input=inp, observed=lk["wc_after"])
-            if coq_ok and all(ord(ch) < 128 for ch in i):
+            if coq is not None and all(ord(ch) < 128 for ch in i):
                 try:
                     found = coq_opt(lk.get("found"), gdsgen.cobj)
                 except ValueError:
                     continue
-                rows.append("{| gc_is_doc := %s; gc_obj := doc_%d; gc_wc := %d%%nat; gc_id := %s; gc_res := %d%%nat; gc_found := %s; "
-                            "gc_wc_after := %d%%nat; gc_msg := %d%%nat |}" % (supergen.b(is_doc), k, lk["wc"], coq_str(i), lk["res"], found,
+                defs[(k, st)] = "Definition doc_%d_%d : obj XF := %s." % (k, st, coq)
+                rows.append("{| gc_is_doc := %s; gc_obj := doc_%d_%d; gc_wc := %d%%nat; gc_id := %s; gc_res := %d%%nat; gc_found := %s; "
+                            "gc_wc_after := %d%%nat; gc_msg := %d%%nat |}" % (supergen.b(is_doc), k, st, lk["wc"], coq_str(i), lk["res"], found,
                                                                               lk["wc_after"], lk["msg"]))
-                meta.append((inp, lk, k))
-    shard = 120
+                meta.append((inp, lk, (k, st)))
+    shard = 100
     from concurrent.futures import ThreadPoolExecutor
     texts = []
     for s in range(0, len(rows), shard):
-        used = set(m[2] for m in meta[s:s + shard])
-        texts.append(("Cases_C11_id_%d.v" % (s // shard), s, HEADER + "\n".join(d for k, d in defs if k in used) + "\nDefinition cases : list idcase := %s.\n" % coq_list(
+        used = sorted(set(m[2] for m in meta[s:s + shard]))
+        texts.append(("%s_%d.v" % (label, s // shard), s, HEADER + "\n".join(defs[u] for u in used) + "\nDefinition cases : list idcase := %s.\n" % coq_list(
             ["\n " + x for x in rows[s:s + shard]]) + "Eval vm_compute in (id_mismatches true Gen_Members.M 0 cases).\n"))
-    with ThreadPoolExecutor(max_workers=4) as ex:
+    with ThreadPoolExecutor(max_workers=6) as ex:
         evals = list(ex.map(lambda f: ck.coq_eval(f[0], f[2], timeout=900), texts))
     for (name, s, _), (ok, results, out) in zip(texts, evals):
         ck.oblige(name + ":evaluates", ok, out[-1500:], kind="correspondence")
@@ -332,8 +451,8 @@ def idcases(ck, mir, cases, res):
             i, bits = int(m.group(1)), int(m.group(2))
             inp, lk, _ = meta[s + i]
             which = [nm for b_, nm in ((1, "result"), (2, "component"), (4, "counter"), (8, "message")) if bits & b_]
-            ck.disagree("Super.get_by_id[" + "+".join(which) + "]", inp, "model differs (bits %d)" % bits, lk)
-    ck.extra["get_by_id_lookups"] = len(rows)
+            ck.disagree("Super.get_by_id[" + "+".join(which) + "]", inp, "model (on the document as it is at that step) differs (bits %d)" % bits, lk)
+    ck.extra["get_by_id_lookups"] = ck.extra.get("get_by_id_lookups", 0) + len(rows)
 
 
 def run(ck):
@@ -365,7 +484,7 @@ def run(ck):
         ck.oblige("Props_C11.v", False, "instance obligations failed", kind="theorem")
     table_findings(ck, mir, S)
     gen = gdsgen.Gen(T, ck.rng)
-    cases = make_idcases(ck, gen, mir, ck.n(24, 240))
+    cases = make_histories(ck, gen, mir, ck.n(30, 300)) + make_idcases(ck, gen, mir, ck.n(16, 200))
     order = {c: T.field_order(c) for c in T.order}
     res = ck.impl("c11_impl.py", {"order": order, "classes": mir.order, "idcases": cases}, timeout=1500)
     ok_res = introspection(ck, mir, S, res)
@@ -386,7 +505,7 @@ def replay(ck, data):
     inp = data.get("input") or {}
     order = {c: T.field_order(c) for c in T.order}
     if "document" in inp:
-        case = {"tree": inp["document"], "ids": [inp["id"]]}
+        case = {"tree": inp["document"], "steps": inp.get("steps") or [{"op": "lookup", "id": inp["id"]}]}
         if inp.get("set"):
             case["set"] = inp["set"]
         res = ck.impl("c11_impl.py", {"order": order, "classes": [], "idcases": [case]}, timeout=600)
